@@ -14,6 +14,7 @@ import KvarnModel.Drv.C13
 import KvarnModel.Drv.C17
 import KvarnModel.Drv.C08
 import KvarnModel.Drv.C20
+import KvarnModel.Drv.C10
 /-!
 Line-protocol driver: `<group>.<fn> <arg> …` per line on stdin, one canonical line on stdout.
 Unknown or ill-formed lines answer `bad-op` — never a default.
@@ -41,6 +42,7 @@ def dispatchLine (line : String) : String :=
       | ["c17", f] => Drv.C17.handle' (f :: args)
       | ["c08", f] => Drv.C08.handle (f :: args)
       | ["c20", f] => Drv.C20.handle (f :: args)
+      | ["c10", f] => Drv.C10.handle (f :: args)
       | _ => none
     r.getD "bad-op"
 
